@@ -10,6 +10,7 @@ table; when the constraints are satisfiable the result is empty.
 from __future__ import annotations
 
 import itertools
+import re
 import threading
 
 import claripy
@@ -167,5 +168,26 @@ def run(tier: str) -> int:
 
 
 def replay(path: str) -> int:
-    print("replay: cases are listed in", path, "- re-run `check.py C16`")
-    return 0
+    """re-runs the sequences of the recorded cases (class | variant | constraint sequence)"""
+    import json
+
+    data = json.load(open(path))
+    bad = 0
+    for c in data["cases"]:
+        parts = c["case"].split("|")
+        cls, variant, seq = parts[0], parts[1], tuple(parts[2].split(",")) if parts[2] else ()
+        # constraint labels may themselves contain '|' (x==1|x==6): re-join what is not a derived-suffix
+        body = "|".join(parts[2:])
+        for suffix in ("|blank_copy+add", "|split[0]", "|split[1]", "|split[2]"):
+            if body.endswith(suffix):
+                body = body[: -len(suffix)]
+        seq = tuple(x for x in re.split(r",(?=[a-zA-Z!])", body))
+        res = _work((cls, {"track": True}, variant, [seq]))
+        hit = [f for f in res.get("failures", []) if f["case"] == c["case"]]
+        if hit:
+            bad += 1
+            print(f"VIOLATION property={PID} replay={path}")
+            print("  ", c["case"], str(hit[0]["detail"])[:200])
+        else:
+            print("replay:", c["case"], "holds now")
+    return 1 if bad else 0
